@@ -10,6 +10,9 @@
 //!   c15.rt.containers   the container impls on their own (`Option`, `Vec`, `HashMap`, tuples, `Box`, `MaybeRef`,
 //!                       `RcRef`, `Ref`, `Lazy`, numbers)
 //!   c15.f32             `i32 as f32` vs the model's `f32OfInt` (boundary values + random)
+//!   c15.hw            the hand-written pairs with a Lean model of their own (Model/Handwritten2.lean): MaybeNamedDest,
+//!                       NumberTree, NameTree (read side), CidToGidMap, AppearanceStreamEntry, Pattern, XObject
+//!                       dispatch, Encoding — see c15_hw.rs
 //!   c15.rt.illtyped     the same dictionaries with one entry spoiled (drift only: outside the property's domain)
 //! Oracles (the REAL types against the two laws themselves):
 //!   c15.law1            write(read(write x)) == write x and the read succeeds, for every typed model incl. the
@@ -22,6 +25,8 @@
 
 #[path = "c15_support.rs"]
 pub mod support;
+#[path = "c15_hw.rs"]
+mod hw;
 
 use crate::driver::Driver;
 use crate::report::{trunc, Oracle, Report, Stream};
@@ -1050,8 +1055,18 @@ fn sweep_real(case: &SweepCase) -> (String, Option<Primitive>, Option<Primitive>
                     Err(e) => return format!("rerr2 {} ({}) written form {}", err_chain(&e), e, show_plain(&p1)),
                 };
                 let mut up2 = RecUpdater::new(CREATED_BASE);
+                // a written stream is compared with its data, not only by its dictionary
+                fn with_data(p: &Primitive, r: &impl Resolve) -> String {
+                    match p {
+                        Primitive::Stream(s) => match s.raw_data(r) {
+                            Ok(d) => format!("{}~{}", show_plain(p), hex(&d)),
+                            Err(_) => format!("{}~?", show_plain(p)),
+                        },
+                        q => show_plain(q),
+                    }
+                }
                 match x2.to_primitive(&mut up2) {
-                    Ok(p2) => format!("ok {} {}", show_plain(&p1), show_plain(&p2)),
+                    Ok(p2) => format!("ok {} {}", with_data(&p1, r), with_data(&p2, r)),
                     Err(e) => format!("werr2 {}", e),
                 }
             }))
@@ -1254,6 +1269,7 @@ pub fn run(driver: &Driver, seed: u64, thorough: bool, replay: Option<&serde_jso
     rep.streams.push(rt_containers(driver, &schemas, seed, 60 * k));
     rep.streams.push(f32_stream(driver, seed, 700 * k));
     rep.streams.push(rt_illtyped(driver, &schemas, seed, 12 * k));
+    rep.streams.push(hw::hw_stream(driver, &schemas, seed, 120 * k));
     let (l1, l2) = oracle_laws(&schemas, seed, 60 * k, None);
     rep.oracles.push(l1);
     rep.oracles.push(l2);
